@@ -1139,6 +1139,42 @@ def _join_form(fn, bid):
     return None
 
 
+def _snapshot_still_valid(fn, var, init, bid):
+    """A local defined once from `init` still equals `init` when block bid branches on it: nothing that init reads (fields,
+    locals) may be written by an event that can run after the definition and before the branch."""
+    reads = {x['n'] for x in walk(init) if isinstance(x, dict) and x.get('k') in ('mem', 'var')}
+    if not reads:
+        return True
+    cache = fn.__dict__.setdefault('_snapcache', {})
+    key = (var, bid)
+    if key in cache:
+        return cache[key]
+    dblocks = [e['_b'] for e in fn.events('decl') if e['n'] == var]
+    ok = True
+    if dblocks:
+        db = dblocks[0]
+        after = fn.reachable_from(db) | {db}
+        for e in fn.events():
+            if e['k'] not in ('asg', 'call') or e['_b'] not in after:
+                continue
+            if not (e['_b'] == bid or bid in fn.reachable_from(e['_b'])):
+                continue
+            if e['k'] == 'decl':
+                continue
+            try:
+                wn = _written_names(fn, e)
+            except Exception:
+                wn = ()
+            if any(n in reads for kind, n in wn if not (kind == 'var' and n == var)):
+                # the write must not be the definition itself / precede it in the same block
+                if e['_b'] == db and any(x['k'] == 'decl' and x['n'] == var and x['_i'] > e['_i'] for x in fn.blocks[db]['ev']):
+                    continue
+                ok = False
+                break
+    cache[key] = ok
+    return ok
+
+
 def _edge_facts(fn, bid, idx):
     """All facts established by taking successor #idx of block bid: [(key, pol, atom)].  A test of
     a boolean local that is defined exactly once also yields the fact about its initialiser (so
@@ -1161,6 +1197,8 @@ def _edge_facts(fn, bid, idx):
                 init = fn.single_def(a['n'])
                 if init is None:
                     break
+                if not _snapshot_still_valid(fn, a['n'], init, bid):
+                    break           # `const bool was = x->f_; x->f_ = true; if (was)`: the test says nothing about f_ now
                 a2, p2 = norm_cond(fn.prog, init)
                 pol = pol if p2 else (not pol)
                 k2 = dstr(a2)
